@@ -360,7 +360,15 @@ impl fmt::Display for IterableKind {
         let s = match self {
             IterableKind::Numbers(v) => format!("{:?}", v),
             IterableKind::Integers(v) => format!("{:?}", v),
-            IterableKind::Anys(v) => format!("{:?}", v),
+            //mixed values (for example integers and decimals) are written the way
+            //each of them is written in the source, not with their debug names
+            IterableKind::Anys(v) => format!(
+                "[{}]",
+                v.iter()
+                    .map(|value| value.to_string())
+                    .collect::<Vec<_>>()
+                    .join(", ")
+            ),
             IterableKind::PositiveIntegers(v) => format!("{:?}", v),
             IterableKind::Strings(v) => format!("{:?}", v),
             IterableKind::Edges(v) => format!("{:?}", v),
